@@ -13,10 +13,14 @@ Cap == 100
 VARIABLES l, ok
 ZipOK(e) == /\ e.completed
             /\ e.worst_cmp <= e.worst_nold * Cap
-            /\ e.total_cmp <= Cap * (e.uses_old + e.blocks_old + 1)
+            \* "comparisons stay within a constant multiple of instructions times the candidate cap"
+            /\ e.total_cmp <= 2 * Cap * (e.instrs_old + 1)
 RunOK(e) == /\ e.completed /\ ~e.panicked
             /\ e.wall_ms <= e.budget_ms
             /\ (e.blocks > 5000 => e.oversized)          \* beyond the block cap: rejected, not processed
+            \* the canonical form is text about the instructions: its size stays within a (generous) multiple
+            \* of the size of the source it describes — nesting must not multiply it
+            /\ e.ir_bytes <= 200 * e.bytes + 1048576
             /\ e.maxlit <= e.litcap                       \* string literals are cut at the documented cap
             /\ (e.bytes > 10485760 => e.rejected)         \* file-size cap
 EvOK(e) == IF e.ev = "zip" THEN ZipOK(e) ELSE IF e.ev = "run" THEN RunOK(e) ELSE TRUE
